@@ -962,6 +962,8 @@ DIRECT_PATH_RESTRICTIONS = Inst(reference_restrictions.ReferenceRestrictionsOnDi
 M.contract(P_RR + ':ReferenceRestrictionsOnDirectAndIndirect.is_satisfied_by',
            params=dict(self=DIRECT_PATH_RESTRICTIONS, symbol_table=SYMBOLS, symbol_name=Str, container=CONTAINER),
            inline=True,
+           # focused second contract (path restrictions have no indirect part; the general case is C08's)
+           cover=('return self.check_indirect',),
            ensures={'satisfied iff a path whose resolved relativity is accepted':
                         lambda self, symbol_table, container, result:
                         iff(result is None,
@@ -1425,6 +1427,9 @@ def _result_respects(self, result):
 
 M.contract(P_PARSE + ':_Parser._without_explicit_relativity', params=dict(self=PARSER, path_argument=TOKEN),
            inline=True,
+           # dead code of the program: parse_sym_ref_or_fragments_from_token gives a symbol name (left) only for a
+           # PLAIN token, so `is_left() and not is_plain` never holds
+           cover=('symbol_name_reducer.reduce_left',),
            # `file ""`: symbol_syntax.split('') is [] and fragments[0] raises IndexError (reported by the instruction
            # parser as a syntax error with the message 'list index out of range'; see notes/C12.md)
            raises={IndexError: {'when': lambda path_argument:
